@@ -23,16 +23,17 @@ CORE = ["DoExec", "DoStartReached", "DoDelayReached", "DoInitiateEnd", "DoEndBeg
 
 
 def mc(ctx, T, sfx):
-    r = ctx.tlc(SPEC, "SyncMachine", cfg="MC_Blocks" + sfx, coverage=True, label="MC_Blocks", timeout=ctx.pick(300, 2400))
-    ctx.require_coverage(r, CORE + ["DoFailStart", "DoFailDelay", "DoFailInitiate", "DoFailWaiter", "DoFailNext"], "MC_Blocks")
-    r = ctx.tlc(SPEC, "SyncMachine", cfg="MC_Msgs" + sfx, coverage=True, label="MC_Msgs", timeout=ctx.pick(300, 2400))
-    ctx.require_coverage(r, CORE + ["DoArrive", "DoHandOff"], "MC_Msgs")
-    r = ctx.tlc(SPEC, "SyncMachine", cfg="MC_Pair" + sfx, coverage=True, label="MC_Pair", timeout=ctx.pick(300, 2400))
-    ctx.require_coverage(r, CORE, "MC_Pair")
-    r = ctx.tlc(SPEC, "SyncMachine", cfg="MC_Prompt" + sfx, coverage=True, label="MC_Prompt", timeout=ctx.pick(300, 2400))
-    ctx.require_coverage(r, CORE, "MC_Prompt")
+    # one member, messages, every error path: all actions must be covered
+    r = ctx.tlc(SPEC, "SyncMachine", cfg="MC_Core" + sfx, coverage=True, label="MC_Core", timeout=ctx.pick(600, 3000))
+    ctx.require_coverage(r, CORE + ["DoArrive", "DoHandOff", "DoFailStart", "DoFailDelay", "DoFailInitiate",
+                                    "DoFailWaiter", "DoFailNext"], "MC_Core")
+    # block arithmetic over many protocols; two members (any interleaving); two members, prompt scheduler
+    for cfg, floor in (("MC_Blocks", 20000), ("MC_Pair", 10000), ("MC_Prompt", 5000)):
+        r = ctx.tlc(SPEC, "SyncMachine", cfg=cfg + sfx, label=cfg, timeout=ctx.pick(600, 3000))
+        if r.distinct < floor:
+            ctx.broken("%s explored only %d states" % (cfg, r.distinct))
     if T:
-        r = ctx.tlc(SPEC, "SyncMachine", cfg="MC_Live", label="MC_Live", timeout=1200)
+        r = ctx.tlc(SPEC, "SyncMachine", cfg="MC_Live", label="MC_Live", timeout=2400)
     # 2. documented residual behaviour: a buffered message can cross a state boundary
     co = ctx.tlc(SPEC, "SyncMachine", cfg="MC_CarryOver", label="MC_CarryOver", expect=("violation",))
     if co.violated != "NoCarryOver":
